@@ -21,6 +21,8 @@ def ops_for(prop, shape, spec):
         ops = alpha.cost_ops(shape)
     if spec.get("spread") is not None and prop in ("C02", "C07"):
         ops = ops + alpha.custom_price_ops(shape)
+    if isinstance(spec.get("spread"), list):
+        ops = [o for o in ops if o[0] not in ("sectransact",)]
     return ops
 
 
@@ -35,6 +37,7 @@ def configs(prop, tier, seed):
             plan.append(("T3", VARIANTS[2 + seed % 3], 2, "exact"))
             plan.append(("T1", VARIANTS[(seed + 3) % len(VARIANTS)], 3, "zero"))
             plan.append(("T1", VARIANTS[(seed + 4) % len(VARIANTS)], 3, "zero2"))
+            plan.append(("T1", VARIANTS[1 + (seed % 2) * 2], 3, "spreadpath"))
     else:
         plan = []
         for v in VARIANTS:
@@ -49,6 +52,9 @@ def configs(prop, tier, seed):
             plan.append(("T1", v, 4, "zero"))
             plan.append(("T1", v, 3, "zero2"))
         plan.append(("T2", VARIANTS[0], 3, "zero"))
+        for v in VARIANTS[:4]:
+            plan.append(("T1", v, 4, "spreadpath"))
+        plan.append(("T2", VARIANTS[2], 3, "spreadpath"))
         if prop in ("C02", "C07"):
             for v in VARIANTS[:4]:
                 plan.append(("F1", v, 3, "exact"))
@@ -60,6 +66,11 @@ def configs(prop, tier, seed):
             # a price that touches exactly zero while positions may be open, then recovers
             spec["alpha"] = "exact"
             spec["prices"] = {"a": [4.0, 0.0, 2.0, 0.0], "b": [1.0, 2.0, 0.0, 1.0]}
+        if al == "spreadpath":
+            # the same quantity can trade at the same mid price on two dates while the spread differs
+            spec["alpha"] = "exact"
+            spec["prices"] = {"a": [4.0, 4.0, 2.0, 2.0], "b": [1.0, 1.0, 1.0, 2.0]}
+            spec["spread"] = [0.5, 1.0, 0.25, 0.5]
         if al == "zero2":
             # start from a non-initial state: a position is open when the price sits at zero twice
             spec["alpha"] = "exact"
